@@ -1,7 +1,7 @@
 """
 C08 - interpolants reproduce their data (SplineInterpolator1D / SplineInterpolator2D).
 
-Proof: Props/C08.v (InterpModel.v / InterpTheory.v / InterpQc.v on top of the spline model of C07).
+Proof: Props/C08.v (InterpModel.v / InterpTheory.v / Interp2D.v / InterpQc.v on top of the spline model of C07).
 
 Tie.  spline_interpolators.py and splines.py are numpy/scipy-level code (LAPACK, SuperLU): they are run
 as they are, on binary64, and every double they produce (knots, Greville points, collocation matrix,
@@ -41,7 +41,6 @@ from qlift import qstr, qparse, frac_of_float as ff
 
 EPS = 2.0 ** -52
 KB = 512.0
-FIND10 = 'spline_interpolators.collocation_matrix:periodic-ncells==degree'
 SITE1 = 'spline_interpolators.SplineInterpolator1D'
 SITE2 = 'spline_interpolators.SplineInterpolator2D'
 
@@ -365,11 +364,30 @@ def gen_cases_2d(chk):
                 n2 = sp[1]['nc'] + (0 if per2 else sp[1]['p'])
                 ug = [qs([ff(rng.randint(-32, 32) / 8.0) for _ in range(n2)]) for _ in range(n1)]
                 cases.append({'space1': sp[0], 'space2': sp[1], 'ug': ug})
-    # one known-defective combination (periodic ncells == degree in one direction)
-    sp1 = make_space(rng, 2, 2, True, 'nonuniform')
-    sp2 = make_space(rng, 3, 2, False, 'nonuniform')
-    cases.append({'space1': sp1, 'space2': sp2,
-                  'ug': [qs([ff(rng.randint(-32, 32) / 8.0) for _ in range(5)]) for _ in range(2)]})
+    # periodic directions with ncells == degree (repeated collocation columns; ordinary strict cases since 6a5dc09)
+    for p in range(1, 6):
+        for kind in ('uniform', 'nonuniform'):
+            if kind == 'nonuniform' and p == 1:
+                continue
+            if quick and (p + (kind == 'uniform')) % 2 == chk.seed % 2 and p > 2:
+                continue
+            cubic = (kind == 'uniform' and p == 3)
+            spa = make_space(rng, p, p, True, kind)
+            if cubic:
+                spb = make_space(rng, rng.randint(1, 4), 3, rng.random() < 0.5, 'uniform')
+                if spb['periodic']:
+                    spb = make_space(rng, rng.randint(3, 5), 3, True, 'uniform')
+            else:
+                pb = rng.choice([1, 2, 4])
+                perb = rng.random() < 0.5
+                spb = make_space(rng, pb if perb else rng.randint(2, 4), pb, perb, 'nonuniform' if pb > 1 or not perb else 'uniform')
+                if spb['kind'] == 'nonuniform' and spb['nc'] == 1:
+                    spb = make_space(rng, 2, pb, perb, 'nonuniform')
+            pair = (spa, spb) if rng.random() < 0.5 else (spb, spa)
+            n1 = pair[0]['nc'] + (0 if pair[0]['periodic'] else pair[0]['p'])
+            n2 = pair[1]['nc'] + (0 if pair[1]['periodic'] else pair[1]['p'])
+            cases.append({'space1': pair[0], 'space2': pair[1],
+                          'ug': [qs([ff(rng.randint(-32, 32) / 8.0) for _ in range(n2)]) for _ in range(n1)]})
     return cases
 
 
@@ -386,10 +404,8 @@ def check_1d(chk, c, r, stats):
         for j in range(len(c['data'])):
             chk.count((spd['breaks'], spd['p'], spd['periodic'], j), stratum='1d:' + tag + (':ncells<=degree' if small else ''),
                       sample={'space': spd, 'outcome': what})
-        if small:
-            chk.violation(FIND10, 'periodic space with ncells == degree: %s' % what, dict(rep, observed=what))
-        else:
-            chk.violation('%s:exception:%s' % (SITE1, tag), 'SplineInterpolator1D on %s: %s' % (tag, what), dict(rep, observed=what))
+        chk.violation('%s:exception:%s' % (SITE1, tag), 'SplineInterpolator1D on %s (%d cells): %s' % (tag, spd['nc'], what),
+                      dict(rep, observed=what))
         return
     sp = spinfo_exact(spd, r)
     nb, p = sp['nb'], sp['p']
@@ -399,8 +415,7 @@ def check_1d(chk, c, r, stats):
     if 'colloc' in m:
         a = m['colloc']
         if not a.startswith('ok'):
-            if not small:
-                raise core.BrokenCheck('model collocation matrix: %s on %s' % (a, tag))
+            raise core.BrokenCheck('model collocation matrix: %s on %s' % (a, tag))
         else:
             Cm = parse_mat(a)
             Cf = [[qparse(t) for t in row.split()] for row in r['imat']]
@@ -455,8 +470,7 @@ def check_1d(chk, c, r, stats):
         rmax = max(abs(float(v)) for v in res)
         bound_r = KB * nb * EPS * scale
         oracle_ok = rmax <= bound_r
-        if not small:
-            stats['max_ratio_residual'] = max(stats['max_ratio_residual'], rmax / bound_r)
+        stats['max_ratio_residual'] = max(stats['max_ratio_residual'], rmax / bound_r)
         # the model's evaluation of the same spline must be the same rational
         if ev is not None and indep:
             if not ev.startswith('ok'):
@@ -466,11 +480,8 @@ def check_1d(chk, c, r, stats):
         wrap_ok = (not sp['periodic']) or all(cf[nb + k] == cf[k] for k in range(p))
         rep_j = dict(rep, data_index=j, observed=r['coeffs'][j], residual_max=rmax, bound=bound_r)
         if not oracle_ok:
-            if small:
-                chk.violation(FIND10, 'interpolant misses its data by %.3g' % rmax, rep_j)
-            else:
-                chk.violation('%s.compute_interpolant:%s' % (SITE1, tag),
-                              'S(x_i) - u_i = %.3g (bound %.3g) on %s, %d cells, data %s' % (rmax, bound_r, tag, spd['nc'], c['styles'][j]), rep_j)
+            chk.violation('%s.compute_interpolant:%s' % (SITE1, tag),
+                          'S(x_i) - u_i = %.3g (bound %.3g) on %s, %d cells, data %s' % (rmax, bound_r, tag, spd['nc'], c['styles'][j]), rep_j)
         if not wrap_ok:
             chk.violation('%s._solve_system_periodic:wrap:%s' % (SITE1, tag),
                           'periodic coefficients are not wrapped: c[n:n+p] != c[0:p] on %s' % tag, rep_j)
@@ -481,25 +492,22 @@ def check_1d(chk, c, r, stats):
         if 'interp' in m:
             a = m['interp']
             if not a.startswith('ok'):
-                if not small:
-                    raise core.BrokenCheck('model answers %s for an admissible space %s / %d cells' % (a, tag, spd['nc']))
-                continue
+                raise core.BrokenCheck('model answers %s for an admissible space %s / %d cells' % (a, tag, spd['nc']))
             cm = parse_mat(a)[j]
             err = max(abs(float(x - y)) for x, y in zip(cm, cf))
             bound_c = KB * nb * EPS * kappa * scale
             chk.cov['disagreements_checked'] += 0 if err <= bound_c else 1
-            if not small:
-                stats['max_ratio_coeffs'] = max(stats['max_ratio_coeffs'], err / bound_c)
+            stats['max_ratio_coeffs'] = max(stats['max_ratio_coeffs'], err / bound_c)
             if err > bound_c and oracle_ok and wrap_ok:
                 chk.violation('%s.compute_interpolant:model-mismatch' % SITE1,
                               'code coefficients differ from the exact ones by %.3g (bound %.3g) although S(x_i) = u_i holds: '
                               'correspondence InterpModel.ip_interp1d no longer checks (%s)' % (err, bound_c, tag),
                               dict(rep_j, kind='correspondence', theorem='InterpModel.ip_interp1d', model=a[:300]), no_input=True)
-            elif err > bound_c and not small and oracle_ok:
+            elif err > bound_c and oracle_ok:
                 chk.violation('%s.compute_interpolant:%s' % (SITE1, tag), 'coefficients off by %.3g on %s' % (err, tag), rep_j)
-            if small:   # the faithful model reproduces the defect: its own interpolant misses the data
-                mres = max(abs(float(eval_exact(sp, cm, x) - ui)) for x, ui in zip(sp['xs'], u))
-                stats['model_refutes_small_periodic'] += 1 if mres > 0 else 0
+            # the model's own interpolant takes the data exactly (c08_interp1d_exact on the instance)
+            if any(eval_exact(sp, cm, x) != ui for x, ui in zip(sp['xs'], u)) and indep:
+                raise core.BrokenCheck('the exact interpolant of the model misses its data on %s: c08_interp1d_exact' % tag)
     # complex data = real and imaginary parts
     if 'cre' in r and 'interp' in m and m['interp'].startswith('ok'):
         cm = parse_mat(m['interp'])
@@ -574,7 +582,7 @@ def check_2d(chk, c, r, m, stats):
               sample={'space1': sp1d, 'space2': sp2d, 'ug': c['ug'][:2]})
     if isinstance(r, tuple):
         what = 'timeout' if r[0] == 'timeout' else 'raised %s: %s' % (r[1], r[2])
-        chk.violation(FIND10 if small else '%s:exception' % SITE2, 'SplineInterpolator2D on %s: %s' % (tag, what), dict(rep, observed=what))
+        chk.violation('%s:exception' % SITE2, 'SplineInterpolator2D on %s: %s' % (tag, what), dict(rep, observed=what))
         return
     s1, s2 = spinfo_exact(sp1d, r['s1']), spinfo_exact(sp2d, r['s2'])
     n1, n2, p1, p2 = s1['nb'], s2['nb'], s1['p'], s2['p']
@@ -597,37 +605,33 @@ def check_2d(chk, c, r, m, stats):
         wrap_ok = wrap_ok and all(W[n1 + k] == W[k] for k in range(p1))
     if s2['periodic']:
         wrap_ok = wrap_ok and all(row[n2 + k] == row[k] for row in W for k in range(p2))
-    if not small:
-        stats['max_ratio_residual_2d'] = max(stats['max_ratio_residual_2d'], rmax / bound_r)
+    stats['max_ratio_residual_2d'] = max(stats['max_ratio_residual_2d'], rmax / bound_r)
     if not oracle_ok:
-        chk.violation(FIND10 if small else '%s.compute_interpolant:%s' % (SITE2, tag),
+        chk.violation('%s.compute_interpolant:%s' % (SITE2, tag),
                       '2-D interpolant misses its data by %.3g (bound %.3g) on %s' % (rmax, bound_r, tag), dict(rep, observed=r['coeffs']))
     if not wrap_ok:
         chk.violation('%s.compute_interpolant:wrap:%s' % (SITE2, tag), '2-D periodic coefficients are not wrapped consistently on %s' % tag,
                       dict(rep, observed=r['coeffs']))
     # the scalar entry point at one grid point
     x0, y0, v0 = [qparse(t) for t in r['scalar']]
-    if abs(float(v0 - ug[0][n2 - 1])) > bound_r * 4 and not small:
+    if abs(float(v0 - ug[0][n2 - 1])) > bound_r * 4:
         chk.violation('splines.Spline2D.eval:scalar', 'Spline2D.eval at a grid point: %s, data %s' % (float(v0), float(ug[0][n2 - 1])), rep)
     a = m['interp2d']
     if not a.startswith('ok'):
-        if not small:
-            raise core.BrokenCheck('model interp2d answers %s on %s' % (a, tag))
-        return
+        raise core.BrokenCheck('model interp2d answers %s on %s' % (a, tag))
     Wm = parse_mat(a)
     if len(Wm) != len(W) or any(len(x) != len(y) for x, y in zip(Wm, W)):
         raise core.BrokenCheck('model interp2d shape differs from Spline2D.coeffs on %s' % tag)
     err = max(abs(float(x - y)) for rm, rf in zip(Wm, W) for x, y in zip(rm, rf))
     bound_c = KB * (n1 + n2) * EPS * scale * r['kappa']
-    if not small:
-        stats['max_ratio_coeffs_2d'] = max(stats['max_ratio_coeffs_2d'], err / bound_c)
+    stats['max_ratio_coeffs_2d'] = max(stats['max_ratio_coeffs_2d'], err / bound_c)
     if err > bound_c and oracle_ok and wrap_ok:
         chk.violation('%s.compute_interpolant:model-mismatch' % SITE2,
                       '2-D code coefficients differ from the exact ones by %.3g (bound %.3g) although the data are reproduced: '
                       'correspondence InterpModel.ip_interp2d no longer checks (%s)' % (err, bound_c, tag),
                       dict(rep, kind='correspondence', theorem='InterpModel.ip_interp2d'), no_input=True)
-    # the model's own interpolant reproduces the data exactly (what interp2d_exact would state; not proved)
-    if not small:
+    # the model's own interpolant reproduces the data exactly (c08_interp2d_exact on the instance)
+    if True:
         for i in range(n1):
             rowv = [sum(B1[i][a2] * Wm[a2][b] for a2 in range(s1['ncoef'])) for b in range(s2['ncoef'])]
             for j in range(n2):
@@ -701,7 +705,7 @@ def coq_crosscheck(chk, cases, results, answers):
 
 def run_all(chk):
     stats = {'max_ratio_residual': 0.0, 'max_ratio_coeffs': 0.0, 'max_ratio_residual_2d': 0.0, 'max_ratio_coeffs_2d': 0.0,
-             'model_refutes_small_periodic': 0, 'poly_exact': 0, 'interp2d_exact_on_model': 0}
+             'poly_exact': 0, 'interp2d_exact_on_model': 0}
     cases = gen_cases_1d(chk)
     res = implrun.run_cases('props.c08', 'impl_1d', cases, tmo=60.0)
     reqs = [requests_1d(c, r) for c, r in zip(cases, res)]
@@ -731,15 +735,12 @@ def run_all(chk):
 
 
 UNCOVERED = [
-    'interp2d_exact (2-D interpolant takes the data values on the tensor grid) is not proved: exact differential only '
-    '(model = code within the bound, and the model\'s own 2-D interpolant reproduces the data exactly on every tested space)',
     'polynomials of degree 1..p are reproduced everywhere on clamped spaces: proved for degree 0 only '
     '(c08_interp1d_const + c08_const_spline); degrees 1..5 tested exactly on the model and within the bound on the code',
     'non-singularity of the collocation matrix for all admissible spaces (Schoenberg-Whitney) is not formalised: theorems that '
     'need uniqueness carry the certificate ip_inverse_ok, the solver returns an error on a singular matrix',
     'rounding, LAPACK ?gbtrf/?gbtrs and SuperLU are not modelled: the float results are compared with the exact ones under '
     'the condition-number-scaled bound',
-    'REFUTED, not uncovered: periodic spaces with ncells = degree (c08_interp_periodic_small_refuted; known finding)',
 ]
 
 
@@ -773,7 +774,7 @@ def replay(path):
     chk = core.Check('C08', 'proof')
     chk.known = []
     stats = {'max_ratio_residual': 0.0, 'max_ratio_coeffs': 0.0, 'max_ratio_residual_2d': 0.0, 'max_ratio_coeffs_2d': 0.0,
-             'model_refutes_small_periodic': 0, 'poly_exact': 0, 'interp2d_exact_on_model': 0}
+             'poly_exact': 0, 'interp2d_exact_on_model': 0}
     c = rp['case']
     if rp['kind'] == '2d':
         r = implrun.run_cases('props.c08', 'impl_2d', [c], tmo=120.0)[0]
